@@ -330,7 +330,10 @@ def evaluate__exp(self: XPathFunction, context: ta.ContextType = None) -> ta.One
     arg: ta.NumericType = self.get_argument(self.context or context, cls=NumericProxy)
     if arg is None:
         return []
-    return math.exp(arg)
+    try:
+        return math.exp(arg)
+    except OverflowError:
+        return math.inf
 
 
 @method(function('exp10', prefix='math', nargs=1, sequence_types=('xs:double?', 'xs:double?')))
@@ -338,7 +341,10 @@ def evaluate__exp10(self: XPathFunction, context: ta.ContextType = None) -> ta.O
     arg: ta.NumericType = self.get_argument(self.context or context, cls=NumericProxy)
     if arg is None:
         return []
-    return float(10 ** arg)
+    try:
+        return math.pow(10.0, arg)  # an xs:double computation: 10 ** <huge integer> never ends
+    except OverflowError:
+        return math.inf
 
 
 @method(function('log', prefix='math', nargs=1, sequence_types=('xs:double?', 'xs:double?')))
